@@ -115,19 +115,25 @@ def prio_dicts(level="quick"):
 
 
 # ---------------------------------------------------------------- exact solvers (environment answers)
+# what a failing solver may raise: with a message, WITHOUT arguments (bare class, assert, exhausted iterator), with several arguments
+RAISES = [lambda: RuntimeError("solver exploded"), lambda: RuntimeError(), lambda: AssertionError(), lambda: StopIteration(), lambda: KeyError("x"),
+          lambda: ValueError(1, 2), lambda: IndexError(), lambda: Exception(), lambda: OSError(5, "io"), lambda: ZeroDivisionError("division by zero")]
+
+
 class Capture:
     """Solver callable: records what it was given, answers by brute force over the integer box of the columns
     (first optimal point in row-major box order).  mode: 'exact' | 'tag' | 'none' | 'raise'"""
 
-    def __init__(self, mode="exact"):
+    def __init__(self, mode="exact", exc=0):
         self.mode = mode
+        self.exc = exc
         self.calls = []
 
     def __call__(self, polyhedron, objectives):
         objs = [np.asarray(o) for o in objectives]
         self.calls.append((polyhedron, objs))
         if self.mode == "raise":
-            raise RuntimeError("solver exploded")
+            raise RAISES[self.exc]()
         if self.mode == "none":
             return [(None, None, 4) for _ in objs]
         ncols = np.asarray(polyhedron).shape[1] - 1
